@@ -161,6 +161,16 @@ ALLOWED_NOOP_TESTS = {
 }
 
 
+def _under_negative_test(g, node, var):
+  """Is `node` reachable only through the true branch of a test `var < 0`?"""
+  tests = [n for n in g.nodes if n.kind == 'test' and A.unparse(n.ast) == f'{var} < 0']
+  if not tests:
+    return False
+  blocked = {(t.id, m.id, l) for t in tests for m, l in t.succ if l == 'true'}
+  seen, _ = g.reach(g.entry, blocked_edges=blocked, follow_exc=False)
+  return node.id not in seen
+
+
 def rule_d(ctx):
   idx = ctx.index
   # (i) the index handed to the raw list op is the caller's index, only
@@ -178,8 +188,13 @@ def rule_d(ctx):
         if not isinstance(ia, ast.Name):
           problems.append(f'{raw} index is `{A.unparse(ia)}`')
           continue
-        for dn, val in D.reaching_defs(g, k, ia.id):
+        for dn, val in D.reaching_defs_flagaware(g, k, ia.id):
           v = A.unparse(val) if val is not None else 'param'
+          if raw == 'list.__setitem__' and v == f'{ia.id} + len(self)' and _under_negative_test(g, dn, ia.id):
+            # an in-range negative position of an EXISTING item rewritten to its
+            # real position (same element as for list); not allowed for insert,
+            # where an out-of-range negative index must clamp to the front
+            continue
           if v not in ('key', 'len(self)', 'param'):
             problems.append(f'index handed to {raw} is redefined as `{v}` (line {dn.lineno}): '
                             f'negative / out-of-range positions no longer mean what they mean for list')
